@@ -19,7 +19,7 @@ def wild_edit(rng, spec):
            "mut_on_wrap_or_ctor", "val_in_two_mws"]
     op = rng.choice(ops)
     cl = [(k, xid, x) for (k, xid, x) in comps(spec) if x.get("ins")]
-    types = list(spec["types"])
+    types = [t for t, ty in spec["types"].items() if not ty.get("generic")]
     if op == "mut_input" and cl:
         k, xid, x = rng.choice(cl)
         if k == "mws" and x["kind"] == "wrap":
@@ -50,7 +50,7 @@ def wild_edit(rng, spec):
             rng.choice(cs)["cloning"] = rng.choice([None, "never"])
             return op
     if op == "mut_and_ref":
-        reqs = [t for t, ty in spec["types"].items() if ty["lc"] == "request"]
+        reqs = [t for t, ty in spec["types"].items() if ty["lc"] == "request" and not ty.get("generic")]
         hs = list(spec["handlers"].values())
         ms = [m for m in spec["mws"].values() if m["kind"] != "wrap"]
         if reqs and hs:
@@ -97,7 +97,7 @@ def wild_edit(rng, spec):
             return op
     if op == "val_in_two_mws":
         ms = list(spec["mws"].values())
-        reqs = [t for t, ty in spec["types"].items() if ty["lc"] == "request"]
+        reqs = [t for t, ty in spec["types"].items() if ty["lc"] == "request" and not ty.get("generic")]
         if len(ms) >= 2 and reqs:
             t = rng.choice(reqs)
             for m in rng.sample(ms, 2):
